@@ -8,6 +8,7 @@ import (
 	"go/token"
 	"go/types"
 	"os"
+	"regexp"
 	"sort"
 	"strings"
 )
@@ -169,14 +170,28 @@ func ruleFoundFlag(c *Ctx) {
 		}
 		bad := ""
 		nFatal, nPass := 0, 0
+		// a taken condition that is the comparison itself, or a local that holds its result on this path (the
+		// comparison made by a helper spliced in before the branch)
+		isCmp := func(cs CondStep) bool {
+			if cs.Expr == nil || !cs.Taken {
+				return false
+			}
+			if call, ok := ast.Unparen(cs.Expr).(*ast.CallExpr); ok {
+				if f, ok := calleeObj(info, call).(*types.Func); ok && f.Name() == spec.cmp {
+					return true
+				}
+			}
+			if _, isId := ast.Unparen(cs.Expr).(*ast.Ident); isId {
+				if l, ok := cs.F.(*FLit); ok && l.Dom == 2 && l.Mask == 2 && strings.HasPrefix(l.Atom, "b:call:"+spec.cmp+"#") {
+					return true
+				}
+			}
+			return false
+		}
 		cmpTaken := func(p Path, upto int) bool {
 			for _, cs := range p.Conds {
-				if cs.At <= upto && cs.Expr != nil && cs.Taken {
-					if call, ok := ast.Unparen(cs.Expr).(*ast.CallExpr); ok {
-						if f, ok := calleeObj(info, call).(*types.Func); ok && f.Name() == spec.cmp {
-							return true
-						}
-					}
+				if cs.At <= upto && isCmp(cs) {
+					return true
 				}
 			}
 			return false
@@ -191,12 +206,8 @@ func ruleFoundFlag(c *Ctx) {
 				// the assignment must be guarded by the comparison being true
 				okGuard := false
 				for _, cs := range p.Conds {
-					if cs.At <= i && cs.Expr != nil && cs.Taken {
-						if call, ok := ast.Unparen(cs.Expr).(*ast.CallExpr); ok {
-							if f, ok := calleeObj(info, call).(*types.Func); ok && f.Name() == spec.cmp {
-								okGuard = true
-							}
-						}
+					if cs.At <= i && isCmp(cs) {
+						okGuard = true
 					}
 				}
 				if !okGuard {
@@ -473,24 +484,22 @@ func ruleCachedDelegates(c *Ctx) {
 	}
 	info := fi.Pkg.TypesInfo
 	res, wants := paramObjs(info, fi.Decl)[1], paramObjs(info, fi.Decl)[2]
-	// index maps: locals of map type filled only inside `range res`
+	// index maps: locals (or fields of a struct the function built itself) of map type filled only inside `range res`
 	idx := map[types.Object]bool{}
 	fillKey := map[types.Object]string{} // index map → key field it is filled by
 	ast.Inspect(fi.Decl.Body, func(n ast.Node) bool {
 		rs, ok := n.(*ast.RangeStmt)
-		if !ok || objOfIdent(info, rs.X) != res {
+		if !ok || frameArgRoot(info, fi.Decl, objOfIdent(info, rs.X)) != res {
 			return true
 		}
 		rv := objOfIdent(info, rs.Value)
 		ast.Inspect(rs.Body, func(m ast.Node) bool {
 			if as, ok := m.(*ast.AssignStmt); ok && len(as.Lhs) == 1 {
-				if ie, ok := ast.Unparen(as.Lhs[0]).(*ast.IndexExpr); ok && objOfIdent(info, as.Rhs[0]) == rv {
+				if ie, ok := ast.Unparen(as.Lhs[0]).(*ast.IndexExpr); ok && rv != nil && frameArgRoot(info, fi.Decl, objOfIdent(info, as.Rhs[0])) == rv {
 					if o := objOfIdent(info, ie.X); o != nil {
 						idx[o] = true
-						if rv != nil {
-							if kt := canonTerm(fi, ie.Index); strings.HasPrefix(kt, varKey(rv)+".") {
-								fillKey[o] = strings.TrimPrefix(kt, varKey(rv)+".")
-							}
+						if ko, kp := aliasedSelectorPath(info, fi.Decl, ie.Index); ko != nil && len(kp) > 0 && frameArgRoot(info, fi.Decl, ko) == rv {
+							fillKey[o] = strings.Join(kp, ".")
 						}
 					}
 				}
@@ -499,12 +508,14 @@ func ruleCachedDelegates(c *Ctx) {
 		})
 		return true
 	})
-	// every range over wants: each path calls HasResult(t, [index[key]], want, opt...) or Fatal
+	// every range over wants: each path calls HasResult(t, [index[key]], want, opt...) or Fatal; the candidate is
+	// judged by what it denotes where the path ends (it may have been picked by a helper spliced into the loop)
 	n := 0
 	bad := ""
+	candRe := regexp.MustCompile(`^(.+?)(@\d+)?\[(.+)\]$`)
 	ast.Inspect(fi.Decl.Body, func(n2 ast.Node) bool {
 		rs, ok := n2.(*ast.RangeStmt)
-		if !ok || objOfIdent(info, rs.X) != wants {
+		if !ok || frameArgRoot(info, fi.Decl, objOfIdent(info, rs.X)) != wants {
 			return true
 		}
 		wv := objOfIdent(info, rs.Value)
@@ -514,34 +525,42 @@ func ruleCachedDelegates(c *Ctx) {
 				if calleeObj(info, call) != hr.Obj || len(call.Args) < 3 {
 					continue
 				}
-				good := objOfIdent(info, call.Args[2]) == wv
-				// candidate list: []*client.OpResult{index[...]}
-				if cl, ok := ast.Unparen(call.Args[1]).(*ast.CompositeLit); ok && len(cl.Elts) == 1 {
-					if ie, ok := ast.Unparen(cl.Elts[0]).(*ast.IndexExpr); ok && idx[objOfIdent(info, ie.X)] {
-						// key derived from the want, and it is the field the index was filled by
-						kt := canonTerm(fi, ie.Index)
-						if wv == nil || !strings.HasPrefix(kt, varKey(wv)+".") || fillKey[objOfIdent(info, ie.X)] == "" || strings.TrimPrefix(kt, varKey(wv)+".") != fillKey[objOfIdent(info, ie.X)] {
-							good = false
+				out = append(out, Event{Kind: "delegate", Node: call})
+			}
+			return out
+		}
+		pe := &pathEnum{info: info, ev: ev, cap: pathCap, fd: fi.Decl}
+		paths, _ := pe.run(rs.Body.List)
+		for _, p := range paths {
+			n++
+			okDelegate := true
+			for _, e := range p.Events {
+				if e.Kind != "delegate" {
+					continue
+				}
+				call := e.Node.(*ast.CallExpr)
+				good := wv != nil && objOfIdent(info, call.Args[2]) == wv
+				// candidate list: []*client.OpResult{index[key]}: the key is derived from the want and is the field the
+				// index was filled by
+				if cl, ok := ast.Unparen(call.Args[1]).(*ast.CompositeLit); good && ok && len(cl.Elts) == 1 {
+					m := candRe.FindStringSubmatch(p.TermAtEnd(pe, cl.Elts[0]))
+					good = false
+					if m != nil {
+						for o := range idx {
+							if varKey(o) == m[1] && fillKey[o] != "" && m[3] == varKey(wv)+"."+fillKey[o] {
+								good = true
+							}
 						}
-					} else {
-						good = false
 					}
 				} else {
 					good = false
 				}
-				k := "delegate"
 				if !good {
-					k = "delegate-bad"
+					okDelegate = false
 				}
-				out = append(out, Event{Kind: k, Node: call})
 			}
-			return out
-		}
-		paths, _ := enumPaths(info, rs.Body.List, ev)
-		for _, p := range paths {
-			n++
 			switch {
-			case p.has("delegate-bad"):
+			case !okDelegate:
 				bad = "HasResult is not called with (the indexed candidate for the want's own key, the want): " + p.describe(c.P)
 			case p.End == "panic" || p.count("delegate") == 1:
 			default:
@@ -723,7 +742,12 @@ func ruleGetEntriesLookups(c *Ctx) {
 		// the key of this iteration's instance: <something derived from the loop value>.NetworkInstance
 		isInstKey := func(e ast.Expr) bool {
 			t := canonTerm(fi, e)
-			return strings.HasSuffix(t, ".NetworkInstance") && strings.HasPrefix(t, varKey(rv)+".")
+			if strings.HasSuffix(t, ".NetworkInstance") && strings.HasPrefix(t, varKey(rv)+".") {
+				return true
+			}
+			// (a parameter of a spliced-in helper bound to it)
+			o, p := aliasedSelectorPath(info, fi.Decl, e)
+			return o == rv && len(p) > 0 && p[len(p)-1] == "NetworkInstance"
 		}
 		cacheVarOf := func(e ast.Expr) types.Object { // X in X.field[k]
 			ie, ok := ast.Unparen(e).(*ast.IndexExpr)
@@ -752,6 +776,9 @@ func ruleGetEntriesLookups(c *Ctx) {
 			c.vanished(rule, fi.Name, loopName+" loop", "no cache variable used in the arms")
 			continue
 		}
+		// the cache variable and the parameters of spliced-in helpers that stand for it are one variable
+		cvRoot := frameArgRoot(info, fi.Decl, cv)
+		same := func(o types.Object) bool { return o != nil && frameArgRoot(info, fi.Decl, o) == cvRoot }
 		ev := func(n ast.Node) []Event {
 			var out []Event
 			inspectNoFuncLit(n, func(m ast.Node) bool {
@@ -759,7 +786,10 @@ func ruleGetEntriesLookups(c *Ctx) {
 				case *ast.AssignStmt:
 					// cv (, ok) := M[key]   |   cv = <other>   |   M[key] = cv / M[key] = &cache{…}
 					for i, l := range x.Lhs {
-						if objOfIdent(info, l) == cv {
+						if same(objOfIdent(info, l)) {
+							if len(x.Rhs) == len(x.Lhs) && objOfIdent(info, l) != cvRoot && same(objOfIdent(info, x.Rhs[i])) {
+								continue // the binding of a helper's parameter to the cache variable
+							}
 							var rhs ast.Expr
 							if len(x.Rhs) == len(x.Lhs) {
 								rhs = x.Rhs[i]
@@ -773,7 +803,7 @@ func ruleGetEntriesLookups(c *Ctx) {
 							out = append(out, Event{Kind: k, Node: x})
 						}
 						if ie, ok := ast.Unparen(l).(*ast.IndexExpr); ok && len(x.Rhs) == len(x.Lhs) && isInstKey(ie.Index) {
-							if objOfIdent(info, x.Rhs[i]) == cv {
+							if same(objOfIdent(info, x.Rhs[i])) {
 								out = append(out, Event{Kind: "bind-cache", Node: x})
 							} else {
 								out = append(out, Event{Kind: "bind-other", Node: x})
@@ -781,8 +811,24 @@ func ruleGetEntriesLookups(c *Ctx) {
 						}
 					}
 				}
+				if rs, ok := m.(*ast.ReturnStmt); ok && len(rs.Results) == 1 {
+					// the result of a helper spliced in, received by the cache variable: `return M[key]` binds it
+					var in *inlineFrame
+					for _, fr := range framesIn(fi.Decl) {
+						if containsNode(fr.Block, rs) && (in == nil || containsNode(in.Block, fr.Block)) {
+							in = fr
+						}
+					}
+					if in != nil && len(in.Lhs) == 1 && same(objOfIdent(info, in.Lhs[0])) && !same(objOfIdent(info, rs.Results[0])) {
+						k := "cache←other"
+						if ie, ok := ast.Unparen(rs.Results[0]).(*ast.IndexExpr); ok && isInstKey(ie.Index) {
+							k = "cache←lookup"
+						}
+						out = append(out, Event{Kind: k, Node: rs})
+					}
+				}
 				if e, ok := m.(ast.Expr); ok {
-					if cacheVarOf(e) == cv {
+					if same(cacheVarOf(e)) {
 						out = append(out, Event{Kind: "use", Node: m})
 					}
 				}
@@ -1187,6 +1233,13 @@ func ruleStatusOptions(c *Ctx) {
 					return [][]lit{{{flag: o}}}
 				}
 			}
+		case *ast.SelectorExpr:
+			// a flag kept in a field of a struct the function built itself (pseudo.go)
+			if o, ok := pseudoFieldObj(info, x).(*types.Var); ok && o != nil {
+				if b, ok := o.Type().Underlying().(*types.Basic); ok && b.Kind() == types.Bool {
+					return [][]lit{{{flag: o}}}
+				}
+			}
 		}
 		return [][]lit{{{unk: types.ExprString(e)}}}
 	}
@@ -1406,8 +1459,8 @@ func ruleStatusOptions(c *Ctx) {
 				return true
 			}
 			o, args := appendTarget(info, st)
-			if o != alts {
-				return true
+			if o == nil || (o != alts && frameResultTarget(info, fi.Decl, o) != alts) {
+				return true // (the list may be built by a helper spliced in: its result variable stands for the list)
 			}
 			for _, a := range args {
 				nAlt++
@@ -1483,7 +1536,7 @@ func classifyAlternative(info *types.Info, fd *ast.FuncDecl, e ast.Expr, want ty
 			fromWant, cleared := false, false
 			if def != nil {
 				ast.Inspect(def, func(n ast.Node) bool {
-					if id, ok := n.(*ast.Ident); ok && info.ObjectOf(id) == want {
+					if id, ok := n.(*ast.Ident); ok && info.ObjectOf(id) != nil && frameArgRoot(info, fd, info.ObjectOf(id)) == want {
 						fromWant = true
 					}
 					return true
